@@ -311,6 +311,25 @@ RESUME_CASES = [
 ]
 
 
+# settings both ends keep on both connections of a resume case: extensions
+# the resumed ServerHello has to carry again, alone and next to each other
+RESUME_SETTINGS = {
+    "rsl": ({"record_size_limit": 1024}, {"record_size_limit": 2048}),
+    "rsl-client-no-heartbeat": (
+        {"record_size_limit": 1024, "use_heartbeat_extension": False},
+        {"record_size_limit": 2048}),
+    "rsl-server-no-heartbeat": (
+        {"record_size_limit": 1024},
+        {"record_size_limit": 2048, "use_heartbeat_extension": False}),
+    "rsl-client-only": ({"record_size_limit": 1024},
+                        {"record_size_limit": None}),
+    "rsl-server-only": ({"record_size_limit": None},
+                        {"record_size_limit": 2048}),
+    "no-heartbeat": ({"use_heartbeat_extension": False},
+                     {"use_heartbeat_extension": False}),
+}
+
+
 def resume_case(item):
     """The same agreement on a *resumed* connection: full handshake, then a
     second connection offering the session; both ends of the second
@@ -321,11 +340,13 @@ def resume_case(item):
     from tlslite.constants import CipherSuite as CS
     ckw = {"serverName": "example.test", "alpn": [b"h2", b"http/1.1"]}
     skw = {"alpn": [b"http/1.1", b"h2"]}
+    cset, sset = RESUME_SETTINGS.get(variant, ({}, {}))
     sc = S.Scen("c03/resume-" + name, version=version,
                 suite=getattr(CS, sname), cred="rsa",
                 client_cred="c_rsa" if variant == "clientauth" else None,
                 req_cert=variant == "clientauth", cache=(mech == "id"),
-                tickets=(mech == "ticket"), ckw=ckw, skw=skw)
+                tickets=(mech == "ticket"), ckw=ckw, skw=skw,
+                cset=dict(cset), sset=dict(sset))
     cache = W.SessionCache() if mech == "id" else None
     pair, out = S.connect(sc, seed=seed, cache=cache)
     fails = []
@@ -366,6 +387,33 @@ def resume_case(item):
     r = pair2.read("S", None, 4)
     if r.status != "ok" or bytes(r.value) != b"ping":
         fails.append("data after resumption: %r" % (r,))
+    if variant in RESUME_SETTINGS:
+        # record size limits are negotiated anew on every connection: what
+        # one end sends must fit what the other end accepts, and a write
+        # longer than every limit must arrive
+        c2, s2 = pair2.c, pair2.s
+        if c2._recv_record_limit < s2._send_record_limit or \
+                s2._recv_record_limit < c2._send_record_limit:
+            fails.append("%s connection: record limits disagree: client "
+                         "recv %d / server send %d, server recv %d / client "
+                         "send %d" % ("resumed" if resumed else "second",
+                                      c2._recv_record_limit,
+                                      s2._send_record_limit,
+                                      s2._recv_record_limit,
+                                      c2._send_record_limit))
+        for (a, b) in (("C", "S"), ("S", "C")):
+            blob = bytes(bytearray((i * 7 + 1) & 0xff for i in range(5000)))
+            pair2.write(a, blob)
+            r = pair2.read(b, None, len(blob))
+            got = bytes(r.value) if r.status == "ok" else b""
+            while r.status == "ok" and len(got) < len(blob):
+                r = pair2.read(b, None, len(blob) - len(got))
+                if r.status == "ok" and not r.value:
+                    break
+                got += bytes(r.value) if r.status == "ok" else b""
+            if got != blob:
+                fails.append("5000 octets from %s after resumption: %r, %d "
+                             "octets arrived" % (a, r.status, len(got)))
     return name, variant, ("resumed" if resumed else "full",
                            vc.get("appProto")), fails
 
@@ -410,7 +458,8 @@ def run(res, tier, seed):
     res.section("pairs", pairs=n, completed_on_both=done,
                 flavours=len(FLAVOURS), singles=len(singles))
     ritems = [(ri, var, seed) for ri in range(len(RESUME_CASES))
-              for var in ("plain", "no-alpn", "clientauth")]
+              for var in ("plain", "no-alpn", "clientauth") +
+              tuple(sorted(RESUME_SETTINGS))]
     nres = 0
     for (name, var, sig, fails) in pmap(resume_case, ritems):
         n += 1
